@@ -1,7 +1,7 @@
 (* C17 — qarray: element addressing, ownership and iteration.  Property theorems only;
    the proofs are in Qarray/Proofs.v, the model in Qarray/Model.v (tied to /repo by ./check C17). *)
 From Coq Require Import List NArith.
-From QV Require Import Qarray.Model Qarray.Proofs.
+From QV Require Import Qarray.Model Qarray.Proofs Qarray.ProofsHash.
 Local Open Scope N_scope.
 
 (* For every count, object size, distribution, tight flag, seg_pages, page size and shepherd count that the
@@ -57,6 +57,24 @@ Theorem c17_iter_exact_all_same :
     iter_exact nsheps asg a start stop (iter_loop nsheps asg a start stop).
 Proof. exact iter_exact_allsame. Qed.
 Print Assumptions c17_iter_exact_all_same.
+
+(* FIXED_HASH arrays (the default of qarray_create), any number of shepherds, any segment size: every range that
+   starts on a segment boundary is visited exactly once, each index on the shepherd that owns it, by qarray_iter
+   and by the loop striders.  The guard `start mod segment_size = 0` excludes exactly the known finding below. *)
+Theorem c17_iter_exact_fixed_hash_aligned :
+  forall nsheps asg a start stop,
+    d_kind a = FIXED_HASH -> 0 < nsheps -> 0 < d_segsize a ->
+    start mod d_segsize a = 0 -> start < stop ->
+    iter_exact nsheps asg a start stop (iter nsheps asg a start stop) /\
+    iter_exact nsheps asg a start stop (iter_loop nsheps asg a start stop).
+Proof. intros nsheps asg a start stop K Hn Hss. exact (iter_exact_hash_aligned nsheps asg a K Hn Hss start stop). Qed.
+Print Assumptions c17_iter_exact_fixed_hash_aligned.
+
+(* the hypotheses are satisfiable by a real multi-shepherd descriptor *)
+Example c17_hash_nonvacuous :
+  let a := create 5000 8 dFIXED_HASH false 1 4096 3 0 in
+  d_kind a = FIXED_HASH /\ 0 < d_segsize a /\ (512 mod d_segsize a = 0) /\ 512 < 4000 <= d_count a.
+Proof. vm_compute. repeat split; discriminate. Qed.
 
 (* The full statement (iter_exact for every kind and every sub-range) is FALSE of the faithful model, i.e. of
    the unchanged code: witnesses (replayed on the real code by ./check C17; known_findings.json). *)
